@@ -127,6 +127,26 @@ def run(ctx):
                    "the permissions a subject needs from its issuer cover BOTH its certIssuePermissions and its appPermissions"
                    + ("" if not missing else f" - not part of the result on every path: {missing}"),
                    f"{needed.module.rel}:{s.lineno}")
+    # the PSID collectors gather over ALL permission groups: the list they return is only ever grown inside the loops that fill it
+    # (a rebinding inside a loop keeps the last group only - a subject then needs less than it claims)
+    n_col = 0
+    for hname in ("get_list_of_psid_from_cert_issue_permissions", "get_list_of_psid_from_app_permissions", "get_list_of_allowed_persmissions"):
+        hf = P.cls(CERT).find_method(hname)
+        if hf is None:
+            continue
+        accs = {r.value.id for r in ast.walk(hf.node) if isinstance(r, ast.Return) and isinstance(r.value, ast.Name)}
+        loops_ = [l_ for l_ in ast.walk(hf.node) if isinstance(l_, (ast.For, ast.While))]
+        for acc in sorted(accs):
+            n_col += 1
+            rebinds = [a_ for l_ in loops_ for a_ in ast.walk(l_) if isinstance(a_, ast.Assign) and
+                       any(isinstance(t_, ast.Name) and t_.id == acc for t_ in a_.targets) and
+                       not any(isinstance(x_, ast.Name) and x_.id == acc for x_ in ast.walk(a_.value))]
+            ctx.ob("C09.verify-conjuncts", hf.short(), f"collects-every-group:{acc}", not rebinds,
+                   f"`{acc}` is only grown inside the loops over the permission groups" if not rebinds else
+                   f"`{acc}` is rebound inside a loop (line {rebinds[0].lineno}): every earlier permission group is dropped, only the last one "
+                   "counts - a certificate whose first group claims more than its issuer may hand on is accepted", f"{hf.module.rel}:{hf.node.lineno}")
+    if n_col < 2:
+        raise AnalysisError(f"C09: only {n_col} PSID collectors with a returned accumulator found (confirmed: 3)")
     # the helper bodies the containment conjunct relies on (each checked once, as its own obligation)
     hall = P.func(f"{CERT}.certificate_has_all_permissions")
     ok, why = SU.has_all_body(ctx, hall)
